@@ -79,7 +79,7 @@ let parse_ns (s : string) : (char list * char list) list option =
 
 let () =
   let ic = open_in Sys.argv.(1) in
-  let docs : (string, tree * bool) Hashtbl.t = Hashtbl.create 64 in
+  let docs : (string, tree Lazy.t * bool) Hashtbl.t = Hashtbl.create 64 in
   let out = Buffer.create 65536 in
   (try
     while true do
@@ -89,32 +89,34 @@ let () =
         match f.(0) with
         | "D" ->
           let toks = Array.of_list (List.filter (fun x -> x <> "") (String.split_on_char ' ' f.(3))) in
-          Hashtbl.replace docs f.(1) (parse_tree toks, f.(2) = "1")
+          (* parsed on first use: documents that only go-only cases use are never parsed here *)
+          Hashtbl.replace docs f.(1) (lazy (parse_tree toks), f.(2) = "1")
         | "C" ->
           (* C id kind doc ctx ns expr [extra] *)
           let id = f.(1) and kind = f.(2) in
           let res =
             try
               (match kind with
-               | "sel" | "eval" ->
-                 let (d, hasns) = Hashtbl.find docs f.(3) in
+               | "selgo" | "evalgo" | "histgo" | "distinctgo" -> "U:go-only"
+               | "sel" | "eval" | "selnm" ->
+                 let (dl, hasns) = Hashtbl.find docs f.(3) in let d = Lazy.force dl in
                  let c = parse_addr f.(4) in
                  let ns = parse_ns f.(5) in
                  let e = unesc f.(6) in
-                 implode (if kind = "sel" then run_sel d hasns e ns c else run_eval d hasns e ns c)
+                 implode (if kind = "eval" then run_eval d hasns e ns c else run_sel d hasns e ns c)
                | "selall" | "evalall" ->
-                 let (d, hasns) = Hashtbl.find docs f.(3) in
+                 let (dl, hasns) = Hashtbl.find docs f.(3) in let d = Lazy.force dl in
                  let ns = parse_ns f.(5) in
                  let e = unesc f.(6) in
                  implode (if kind = "selall" then run_sel_all d hasns e ns else run_eval_all d hasns e ns)
                | "sel3all" | "eval3all" ->
                  (* the cursor-level model (Model1/Iter3.v) *)
-                 let (d, hasns) = Hashtbl.find docs f.(3) in
+                 let (dl, hasns) = Hashtbl.find docs f.(3) in let d = Lazy.force dl in
                  let ns = parse_ns f.(5) in
                  let e = unesc f.(6) in
                  implode (if kind = "sel3all" then run_sel3_all d hasns e ns else run_eval3_all d hasns e ns)
                | "hist" ->
-                 let (d, hasns) = Hashtbl.find docs f.(3) in
+                 let (dl, hasns) = Hashtbl.find docs f.(3) in let d = Lazy.force dl in
                  let c = parse_addr f.(4) in
                  let ns = parse_ns f.(5) in
                  let e = unesc f.(6) in
@@ -129,8 +131,8 @@ let () =
                  let rest = String.sub e (i + 1) (String.length e - i - 1) in
                  let ks = if rest = "" then [] else List.map (fun x -> nat_of_int (int_of_string x)) (String.split_on_char ',' rest) in
                  implode (run_cache_str cap ks)
-               | "hash" -> let (d, _) = Hashtbl.find docs f.(3) in implode (run_hash d (parse_addr f.(4)))
-               | "nav" -> let (d, _) = Hashtbl.find docs f.(3) in implode (run_nav d (unesc f.(6)) (parse_addr f.(4)))
+               | "hash" -> let (dl, _) = Hashtbl.find docs f.(3) in let d = Lazy.force dl in implode (run_hash d (parse_addr f.(4)))
+               | "nav" -> let (dl, _) = Hashtbl.find docs f.(3) in let d = Lazy.force dl in implode (run_nav d (unesc f.(6)) (parse_addr f.(4)))
                | "num" -> implode (run_num (unesc f.(5)) (unesc f.(6)))
                | "fmt" -> implode (run_fmt (n_of_hex f.(6)))
                | _ -> "?kind")
